@@ -34,6 +34,14 @@ package output
 //@   site (*groupWriter).close#1 ghost closedGW := true
 //@   ensures closedGW == !(g.ErrorOnly && err == nil)                                                                  [C17]
 
+// Prefixed: stdout and stderr of a command go through ONE line buffer, and that buffer is the one the closer
+// flushes - so a last line without a newline is still written, on whichever stream it arrived.
+//@ func (*Prefixed).WrapWriter
+//@   ensures result.0 == result.1                                                                                      [C17]
+//@   ensures as(result.0, type(*prefixWriter)) == captured(result.2, "(*Prefixed).WrapWriter$1", "pw")                 [C17]
+//@   ensures as(result.0, type(*prefixWriter)).writer == stdOut && as(result.0, type(*prefixWriter)).prefixed == p     [C17]
+//@ func (*Prefixed).WrapWriter$1
+//@   site (*prefixWriter).close#1 requires arg0 == pw                                                                  [C17]
 // Prefixed: every piece of one output line is written while holding the mutex shared by all commands.
 //@ func (*prefixWriter).writeLine
 //@   site fmt.Fprint#1 requires held(pw.prefixed.mutex)                                                                [C17,C18]
